@@ -549,7 +549,9 @@ fn resp_one(cx: &mut Ctx, sel: u8, rng: &mut Rng) {
         let pre: Vec<(u16, Vec<u8>)> = (0..npre).map(|_| { let n = *rng.pick(&[4u16, 12, 12, 14, 27, 60]); let k = rng.below(4) as usize; (n, rng.bytes(k)) }).collect();
         let ntw = rng.below(3);
         let tweaks: Vec<resp::Tweak> = (0..ntw)
-            .map(|_| match rng.below(7) {
+            .map(|_| match rng.below(9) {
+                8 => resp::Tweak::Code(rng.below(256) as u8),
+                7 => { let k = rng.below(6) as usize; resp::Tweak::Pay(rng.bytes(k)) }
                 6 => resp::Tweak::NoResp,
                 5 => resp::Tweak::Clr(*rng.pick(&[4u16, 12, 12, 14, 27, 60])),
                 0 => resp::Tweak::Mid(rng.below(65536) as u16),
